@@ -58,6 +58,59 @@ pub(crate) fn any_array4() -> (Array4, [u8; 16]) {
     (a, model)
 }
 
+/// valid Array4 state at lg_k = 4 whose exceptions sit at the given (concrete) slots: nibble bytes,
+/// cur_min and the exception values are symbolic; the aux map is filled by the real AuxMap::insert in
+/// the given order (concrete probe positions). Shape concrete, contents symbolic.
+pub(crate) fn array4_with_exceptions(exc: &[u32]) -> (Array4, [u8; 16]) {
+    let bytes: [u8; 8] = kani::any();
+    let cur_min: u8 = kani::any();
+    kani::assume(cur_min <= 40);
+    let mut aux = crate::hll::aux_map::AuxMap::new(4);
+    let mut model = [0u8; 16];
+    let mut i = 0;
+    while i < exc.len() {
+        let v: u8 = kani::any();
+        kani::assume(v >= cur_min + 15 && v <= 63);
+        aux.insert(exc[i], v);
+        model[exc[i] as usize] = v;
+        i += 1;
+    }
+    let keep_empty_map: bool = kani::any();
+    let mut a = Array4 {
+        lg_config_k: 4,
+        bytes: bytes.to_vec().into_boxed_slice(),
+        cur_min,
+        num_at_cur_min: 0,
+        aux_map: if exc.len() > 0 || keep_empty_map { Some(aux) } else { None },
+        estimator: ve::raw_estimator(0.0, 16.0, 0.0, false),
+    };
+    let mut at_min = 0u32;
+    // (unrolled: the image harnesses run with an unwinding bound below 16)
+    macro_rules! slot {
+        ($($s:expr),*) => { $( {
+            let raw = a.get_raw($s);
+            let is_exc = (exc.len() > 0 && exc[0] == $s) || (exc.len() > 1 && exc[1] == $s);
+            // representation invariant: nibble 15 <=> the slot has an exception entry
+            kani::assume((raw == AUX_TOKEN) == is_exc);
+            if !is_exc {
+                model[$s as usize] = cur_min + raw;
+                if raw == 0 {
+                    at_min += 1;
+                }
+            }
+        } )* };
+    }
+    slot!(0, 1, 2, 3, 4, 5, 6, 7, 8, 9, 10, 11, 12, 13, 14, 15);
+    a.num_at_cur_min = at_min;
+    (a, model)
+}
+
+const E0: [u32; 0] = [];
+const E1: [u32; 1] = [3];
+const E2: [u32; 2] = [3, 12];
+/// two exceptions with the same home slot in the 4-entry aux table (7 & 3 == 3): the second one probes on
+const E2C: [u32; 2] = [3, 7];
+
 fn check_view(a: &Array4, model: &[u8; 16]) {
     let mut at_min = 0;
     let mut s = 0u32;
@@ -78,26 +131,8 @@ fn cut_grow(_m: &mut crate::hll::aux_map::AuxMap) {
     panic!("verif cut: AuxMap::grow reached with <= 3 exceptions");
 }
 
-//@ props: C02 C17
-//@ tier: quick
-//@ timeout: 1800
-//@ functions: hll::array4::Array4::update
-//@ functions: hll::array4::Array4::get
-//@ functions: hll::array4::Array4::get_raw
-//@ functions: hll::array4::Array4::put_raw
-//@ functions: hll::aux_map::AuxMap::insert
-//@ functions: hll::aux_map::AuxMap::replace
-//@ bounds: lg_k = 4: all 8 nibble bytes symbolic, cur_min 0..=40, <= 2 exceptions in any valid table layout; every coupon (value 1..=63); at least 2 registers at cur_min (so no cur_min shift - covered by c02_array4_shift)
-//@ assumes: Array4 representation invariant: nibble 15 <=> exception entry with value >= cur_min+15; num_at_cur_min = number of registers equal to cur_min
-//@ replay_stub: hll/estimator.rs | pub fn update(&mut self, lg_config_k: u8, old_value: u8, new_value: u8) { | return self::verif_kani_hll_estimator::rec_update(self, lg_config_k, old_value, new_value);
-//@ desc: one Array4::update (all four cases: plain nibble, new exception, exception replaced, ignored): get(slot) = max(old, value), all other registers unchanged, num_at_cur_min tracked, estimator told (old, new) exactly when a register grows
-#[kani::proof]
-#[kani::unwind(18)]
-#[kani::stub(crate::hll::estimator::HipEstimator::update, rec_update)]
-#[kani::stub(Array4::shift_to_bigger_cur_min, cut_shift)]
-#[kani::stub(crate::hll::aux_map::AuxMap::grow, cut_grow)]
-fn c02_array4_update_no_shift() {
-    let (mut a, mut model) = any_array4();
+fn array4_update_case(start: (Array4, [u8; 16]), exceptions: usize) {
+    let (mut a, mut model) = start;
     kani::assume(a.num_at_cur_min >= 2);
     let slot26: u32 = kani::any();
     kani::assume(slot26 < (1 << 26));
@@ -115,25 +150,51 @@ fn c02_array4_update_no_shift() {
     }
     check_view(&a, &model);
     kani::cover!(value > old && value >= a.cur_min + 15 && old < a.cur_min + 15); // new exception
-    kani::cover!(value > old && old >= a.cur_min + 15); // exception replaced
+    if exceptions > 0 {
+        kani::cover!(value > old && old >= a.cur_min + 15); // exception replaced
+    }
     kani::cover!(value > old && value < a.cur_min + 15); // plain nibble
     core::mem::forget(a);
 }
 
+macro_rules! array4_update {
+    ($name:ident, $start:expr, $n:expr) => {
+        #[kani::proof]
+        #[kani::unwind(18)]
+        #[kani::stub(crate::hll::estimator::HipEstimator::update, rec_update)]
+        #[kani::stub(Array4::shift_to_bigger_cur_min, cut_shift)]
+        #[kani::stub(crate::hll::aux_map::AuxMap::grow, cut_grow)]
+        fn $name() {
+            array4_update_case($start, $n);
+        }
+    };
+}
+
+//@ family: array4_update
 //@ props: C02 C17
-//@ tier: quick
-//@ timeout: 1800
-//@ functions: hll::array4::Array4::shift_to_bigger_cur_min
-//@ functions: hll::aux_map::AuxMap::into_iter
+//@ tier: thorough
+//@ timeout: 3600
+//@ functions: hll::array4::Array4::update
+//@ functions: hll::array4::Array4::get
+//@ functions: hll::array4::Array4::get_raw
+//@ functions: hll::array4::Array4::put_raw
 //@ functions: hll::aux_map::AuxMap::insert
-//@ bounds: lg_k = 4, any valid state with no register at cur_min (the only state in which a shift happens), <= 2 exceptions, cur_min 0..=40
-//@ assumes: Array4 representation invariant
-//@ desc: shift_to_bigger_cur_min leaves every register value unchanged while cur_min grows by one: nibbles are decremented, exceptions that now fit move back into the nibbles, the others stay exceptions, num_at_cur_min is recounted; no internal assertion fires when exceptions are present
-#[kani::proof]
-#[kani::unwind(18)]
-#[kani::stub(crate::hll::aux_map::AuxMap::grow, cut_grow)]
-fn c02_array4_shift() {
-    let (mut a, model) = any_array4();
+//@ functions: hll::aux_map::AuxMap::replace
+//@ unwind: 18
+//@ stubs: HipEstimator::update -> recorder; shift_to_bigger_cur_min -> must-not-reach cut; AuxMap::grow -> must-not-reach cut
+//@ bounds: lg_k = 4: all 8 nibble bytes symbolic, cur_min 0..=40, exception slots concrete per instance (none; slot 3; slots 3 and 12; slots 3 and 7 colliding in the aux table) with symbolic values - the *_any_layout instance quantifies over every valid aux table layout with <= 2 exceptions; every coupon (26-bit slot, value 1..=63); at least 2 registers at cur_min (so no cur_min shift - c02_array4_shift_*)
+//@ assumes: Array4 representation invariant: nibble 15 <=> exception entry with value >= cur_min+15; num_at_cur_min = number of registers equal to cur_min
+//@ replay_stub: hll/estimator.rs | pub fn update(&mut self, lg_config_k: u8, old_value: u8, new_value: u8) { | return self::verif_kani_hll_estimator::rec_update(self, lg_config_k, old_value, new_value);
+//@ desc: one Array4::update (all four cases: plain nibble, new exception, exception replaced, ignored): get(slot) = max(old, value), all other registers unchanged, num_at_cur_min tracked, estimator told (old, new) exactly when a register grows
+array4_update!(c02_array4_update_e0, array4_with_exceptions(&E0), 0); //@ tier: quick
+array4_update!(c02_array4_update_e1, array4_with_exceptions(&E1), 1); //@ tier: quick
+array4_update!(c02_array4_update_e2, array4_with_exceptions(&E2), 2);
+array4_update!(c02_array4_update_e2_colliding, array4_with_exceptions(&E2C), 2); //@ tier: quick
+array4_update!(c02_array4_update_any_layout, any_array4(), 2);
+//@ endfamily: x
+
+fn array4_shift_case(start: (Array4, [u8; 16]), exceptions: u32) {
+    let (mut a, model) = start;
     kani::assume(a.num_at_cur_min == 0);
     let c0 = a.cur_min;
     let had_aux = a.aux_map.as_ref().map(|m| va::count(m)).unwrap_or(0);
@@ -154,10 +215,48 @@ fn c02_array4_shift() {
     }
     let have = a.aux_map.as_ref().map(|m| va::count(m)).unwrap_or(0);
     assert!(have == need, "exception table does not hold exactly the registers that need it");
-    kani::cover!(had_aux == 2 && have == 1);
-    kani::cover!(had_aux == 1 && have == 1);
+    if exceptions == 2 {
+        kani::cover!(had_aux == 2 && have == 1);
+        kani::cover!(had_aux == 2 && have == 2);
+        kani::cover!(had_aux == 2 && have == 0);
+    }
+    if exceptions == 1 {
+        kani::cover!(had_aux == 1 && have == 1);
+        kani::cover!(had_aux == 1 && have == 0);
+    }
+    kani::cover!(have == 0);
     core::mem::forget(a);
 }
+
+macro_rules! array4_shift {
+    ($name:ident, $start:expr, $n:expr) => {
+        #[kani::proof]
+        #[kani::unwind(18)]
+        #[kani::stub(crate::hll::aux_map::AuxMap::grow, cut_grow)]
+        fn $name() {
+            array4_shift_case($start, $n);
+        }
+    };
+}
+
+//@ family: array4_shift
+//@ props: C02 C17
+//@ tier: thorough
+//@ timeout: 3600
+//@ functions: hll::array4::Array4::shift_to_bigger_cur_min
+//@ functions: hll::aux_map::AuxMap::into_iter
+//@ functions: hll::aux_map::AuxMap::insert
+//@ unwind: 18
+//@ stubs: AuxMap::grow -> must-not-reach cut
+//@ bounds: lg_k = 4, any valid state with no register at cur_min (the only state in which a shift happens), cur_min 0..=40, exception slots concrete per instance (none; 3; 3 and 12; 3 and 7 colliding in the aux table) with symbolic values; the *_any_layout instance quantifies over every valid aux layout with <= 2 exceptions
+//@ assumes: Array4 representation invariant
+//@ desc: shift_to_bigger_cur_min leaves every register value unchanged while cur_min grows by one: nibbles are decremented, exceptions that now fit move back into the nibbles, the others stay exceptions (an exception of exactly new cur_min + 15 stays one), num_at_cur_min is recounted; no internal assertion fires when exceptions are present
+array4_shift!(c02_array4_shift_e0, array4_with_exceptions(&E0), 0); //@ tier: quick
+array4_shift!(c02_array4_shift_e1, array4_with_exceptions(&E1), 1); //@ tier: quick
+array4_shift!(c02_array4_shift_e2, array4_with_exceptions(&E2), 2); //@ tier: quick
+array4_shift!(c02_array4_shift_e2_colliding, array4_with_exceptions(&E2C), 2);
+array4_shift!(c02_array4_shift_any_layout, any_array4(), 3);
+//@ endfamily: x
 
 // ---------------------------------------------------------------------------------------------
 // Hll4 images: round trip + layout (C11/C12/C18) and the updatable aux-table variant (C13)
@@ -176,90 +275,219 @@ fn same_registers(a: &Array4, model: &[u8; 16]) {
     }
 }
 
-//@ props: C11 C12 C13 C18
-//@ tier: quick
-//@ timeout: 2400
-//@ functions: hll::array4::Array4::serialize
-//@ functions: hll::array4::Array4::deserialize
-//@ functions: hll::sketch::HllSketch::deserialize
-//@ functions: hll::aux_map::AuxMap::iter
-//@ bounds: lg_k = 4: any valid Hll4 state with all 8 nibble bytes symbolic, cur_min 0..=40 and 0..=2 exceptions (any aux table layout)
-//@ assumes: Array4 representation invariant (any_array4)
-//@ desc: the Hll4 image is 40 + k/2 + 4*aux bytes: preInts 10, serVer 1, family 7, lgK, COMPACT flag set (the aux map is written as a pair list), curMin @6, mode byte HLL|Hll4, numAtCurMin @32, auxCount @36, nibbles @40, then (slot | value << 26) pairs; deserializing it restores every register, cur_min, num_at_cur_min and the exception count; the same state encoded in the updatable form (COMPACT flag clear, aux map as a 4-int hash table with empty slots, lgArr = 2 in byte 4) decodes to the same registers
-#[kani::proof]
-#[kani::unwind(20)]
-#[kani::stub(alloc::fmt::format, stub_format)]
-#[kani::stub(crate::hll::aux_map::AuxMap::grow, cut_grow)]
-fn c11_hll_array4_roundtrip_layout() {
-    let (a, model) = any_array4();
+/// loop-free little-endian store
+fn put_le(b: &mut [u8], o: usize, v: u64, n: usize) {
+    b[o] = v as u8;
+    if n >= 2 {
+        b[o + 1] = (v >> 8) as u8;
+    }
+    if n >= 4 {
+        b[o + 2] = (v >> 16) as u8;
+        b[o + 3] = (v >> 24) as u8;
+    }
+    if n >= 8 {
+        b[o + 4] = (v >> 32) as u8;
+        b[o + 5] = (v >> 40) as u8;
+        b[o + 6] = (v >> 48) as u8;
+        b[o + 7] = (v >> 56) as u8;
+    }
+}
+fn rd_u64(b: &[u8], o: usize) -> u64 {
+    (rd_u32(b, o) as u64) | ((rd_u32(b, o + 4) as u64) << 32)
+}
+
+/// Round trip against a SPEC ENCODER (Hll4 image of datasketches-java/cpp, compact aux form) in a 56-byte
+/// array with literal structure: Array4::serialize must equal it byte for byte and Array4::deserialize is
+/// run on the spec image (the dispatcher is c11_hll_deserialize_dispatch). N_AUX = 9 marks the any-layout
+/// instance, which decodes the real bytes through HllSketch::deserialize instead.
+fn array4_image_case(start: (Array4, [u8; 16]), n_exc: usize, via_sketch: bool, decode: bool) {
+    let (mut a, model) = start;
+    if n_exc == 0 && !decode {
+        // (without exceptions the layout instance runs without an aux map object: iterating even an empty aux
+        // table in serialize() costs 12 GB - the e1 / e2 layout instances are thorough-tier for that reason)
+        a.aux_map = None;
+    }
     let n_aux = a.aux_map.as_ref().map(|m| va::count(m)).unwrap_or(0) as usize;
-    let bytes = a.serialize(4);
-    assert!(bytes.len() == 40 + 8 + 4 * n_aux, "Hll4 image is not 40 + k/2 + 4*aux bytes");
-    assert!(bytes[0] == 10 && bytes[1] == 1 && bytes[2] == 7 && bytes[3] == 4, "preInts / serVer / family / lgK");
-    assert!(bytes[5] & 8 != 0, "COMPACT flag: the aux map is written as a pair list");
-    assert!(bytes[5] & 4 == 0 && bytes[5] & 16 == 0);
-    assert!(bytes[6] == a.cur_min, "curMin field");
-    assert!(bytes[7] == 2, "mode byte: HLL mode, Hll4");
-    assert!(rd_u32(&bytes, 32) == a.num_at_cur_min && rd_u32(&bytes, 36) as usize == n_aux, "numAtCurMin / auxCount");
-    let mut i = 0;
-    while i < 8 {
-        assert!(bytes[40 + i] == a.bytes[i], "nibble byte");
-        i += 1;
-    }
-    let mut i = 0;
-    while i < n_aux {
-        let c = rd_u32(&bytes, 48 + 4 * i);
-        let slot = (c & 0x3ff_ffff) as usize;
-        assert!(slot < 16 && (c >> 26) as u8 == model[slot] && a.get_raw(slot as u32) == AUX_TOKEN, "aux pair is not (slot, value) of an exception register");
-        i += 1;
-    }
-    // round trip through the public entry point
-    let mut img = [0u8; 56];
-    let mut i = 0;
-    while i < 56 {
-        if i < bytes.len() {
-            img[i] = bytes[i];
-        }
-        i += 1;
-    }
-    let g = crate::verif_kani_common::expect_ok(crate::hll::sketch::HllSketch::deserialize(&img[..48 + 4 * n_aux]), "own Hll4 image rejected");
-    match g.mode() {
-        crate::hll::mode::Mode::Array4(b) => {
-            same_registers(b, &model);
-            assert!(b.cur_min == a.cur_min && b.num_at_cur_min == a.num_at_cur_min, "cur_min / num_at_cur_min changed");
-            assert!(b.aux_map.as_ref().map(|m| va::count(m)).unwrap_or(0) as usize == n_aux, "exception count changed");
-        }
-        _ => panic!("Hll4 image decoded to another mode"),
-    }
-    // updatable form: aux as a hash table of 4 ints (pairs at arbitrary positions, the rest empty)
-    if n_aux >= 1 {
-        let mut upd = [0u8; 64];
-        let mut i = 0;
-        while i < 48 {
-            upd[i] = bytes[i];
-            i += 1;
-        }
-        upd[4] = 2; // lgAuxArrInts
-        upd[5] &= !8; // not compact
-        let p0: usize = kani::any();
-        let p1: usize = kani::any();
-        kani::assume(p0 < 4 && p1 < 4 && p0 != p1);
-        let mut j = 0;
-        while j < 4 {
-            upd[48 + 4 * p0 + j] = bytes[48 + j];
-            if n_aux == 2 {
-                upd[48 + 4 * p1 + j] = bytes[52 + j];
+    assert!(n_aux == n_exc || n_exc == 9);
+    if via_sketch {
+        let bytes = a.serialize(4);
+        assert!(bytes.len() == 40 + 8 + 4 * n_aux, "Hll4 image is not 40 + k/2 + 4*aux bytes");
+        assert!(bytes[0] == 10 && bytes[1] == 1 && bytes[2] == 7 && bytes[3] == 4, "preInts / serVer / family / lgK");
+        assert!(bytes[5] & 8 != 0, "COMPACT flag: the aux map is written as a pair list");
+        assert!(bytes[6] == a.cur_min && bytes[7] == 2, "curMin / mode byte");
+        assert!(rd_u32(&bytes, 32) == a.num_at_cur_min && rd_u32(&bytes, 36) as usize == n_aux, "numAtCurMin / auxCount");
+        let g = crate::verif_kani_common::expect_ok(crate::hll::sketch::HllSketch::deserialize(&bytes), "own Hll4 image rejected");
+        match g.mode() {
+            crate::hll::mode::Mode::Array4(b) => {
+                same_registers(b, &model);
+                assert!(b.cur_min == a.cur_min && b.num_at_cur_min == a.num_at_cur_min, "cur_min / num_at_cur_min changed");
             }
-            j += 1;
-        }
-        let g2 = crate::verif_kani_common::expect_ok(crate::hll::sketch::HllSketch::deserialize(&upd), "valid updatable Hll4 image rejected");
-        match g2.mode() {
-            crate::hll::mode::Mode::Array4(b) => same_registers(b, &model),
             _ => panic!("Hll4 image decoded to another mode"),
         }
-        core::mem::forget(g2);
+        core::mem::forget((a, g, bytes));
+        return;
     }
-    kani::cover!(n_aux == 2);
-    kani::cover!(n_aux == 0);
-    core::mem::forget((a, g, bytes));
+    let mut img = [0u8; 56];
+    img[0] = 10; // preInts
+    img[1] = 1; // serVer
+    img[2] = 7; // family
+    img[3] = 4; // lgK
+    img[4] = 0; // lgArr: unused in the compact form
+    img[5] = 8; // flags: COMPACT (the aux map is written as a pair list); in order
+    img[6] = a.cur_min;
+    img[7] = 2; // mode byte: HLL mode | Hll4 << 2
+    put_le(&mut img, 8, a.estimator.hip_accum().to_bits(), 8);
+    put_le(&mut img, 16, a.estimator.kxq0().to_bits(), 8);
+    put_le(&mut img, 24, a.estimator.kxq1().to_bits(), 8);
+    put_le(&mut img, 32, a.num_at_cur_min as u64, 4);
+    put_le(&mut img, 36, n_exc as u64, 4); // auxCount
+    put_le(&mut img, 40, u64::from_le_bytes([a.bytes[0], a.bytes[1], a.bytes[2], a.bytes[3], a.bytes[4], a.bytes[5], a.bytes[6], a.bytes[7]]), 8); // nibbles
+    // aux pairs (slot | value << 26) in the order of the aux table's occupied entries
+    if let Some(m) = &a.aux_map {
+        let mut w = 0;
+        let mut i = 0;
+        while i < 4 {
+            let e = va::entry(m, i);
+            if e != 0 {
+                put_le(&mut img, 48 + 4 * w, e as u64, 4);
+                let slot = (e & 0x3ff_ffff) as usize;
+                assert!(slot < 16 && (e >> 26) as u8 == model[slot] && a.get_raw(slot as u32) == AUX_TOKEN, "aux pair is not (slot, value) of an exception register");
+                w += 1;
+            }
+            i += 1;
+        }
+        assert!(w == n_exc);
+    }
+    let total = 48 + 4 * n_exc;
+    if !decode {
+        // C12 / C18: the real encoder writes exactly the spec image
+        let bytes = a.serialize(4);
+        assert!(bytes.len() == total, "Hll4 image is not 40 + k/2 + 4*aux bytes");
+        macro_rules! same_word {
+            ($($i:expr),*) => { $( if 8 * $i + 8 <= total {
+                assert!(rd_u64(&bytes, 8 * $i) == rd_u64(&img, 8 * $i), "serialized bytes differ from the documented layout");
+            } else if 8 * $i + 4 <= total {
+                assert!(rd_u32(&bytes, 8 * $i) == rd_u32(&img, 8 * $i), "serialized bytes differ from the documented layout");
+            } )* };
+        }
+        same_word!(0, 1, 2, 3, 4, 5, 6);
+        core::mem::forget((a, bytes));
+        return;
+    }
+    macro_rules! same_word_unused {
+        ($($i:expr),*) => { $( if 8 * $i + 8 <= total {
+            assert!(rd_u64(&bytes, 8 * $i) == rd_u64(&img, 8 * $i), "serialized bytes differ from the documented layout");
+        } else if 8 * $i + 4 <= total {
+            assert!(rd_u32(&bytes, 8 * $i) == rd_u32(&img, 8 * $i), "serialized bytes differ from the documented layout");
+        } )* };
+    }
+    // C11: decoding the spec image (= the real image, by the *_image_layout_* instances) restores the state
+    let cursor = crate::codec::SketchSlice::new(&img[8..total]);
+    let b = crate::verif_kani_common::expect_ok(Array4::deserialize(cursor, img[6], 4, 0, true, false), "own Hll4 image rejected");
+    same_registers(&b, &model);
+    assert!(b.cur_min == a.cur_min && b.num_at_cur_min == a.num_at_cur_min, "cur_min / num_at_cur_min changed");
+    assert!(b.aux_map.as_ref().map(|m| va::count(m)).unwrap_or(0) as usize == n_aux, "exception count changed");
+    core::mem::forget((a, b));
 }
+
+macro_rules! array4_image {
+    ($name:ident, $start:expr, $n:expr, $via:expr, $decode:expr, $unwind:expr) => {
+        #[kani::proof]
+        #[kani::unwind($unwind)]
+        #[kani::stub(alloc::fmt::format, stub_format)]
+        #[kani::stub(crate::hll::aux_map::AuxMap::grow, cut_grow)]
+        fn $name() {
+            array4_image_case($start, $n, $via, $decode);
+            kani::cover!(true);
+        }
+    };
+}
+
+//@ family: array4_image
+//@ props: C11 C12 C18
+//@ tier: thorough
+//@ timeout: 3600
+//@ functions: hll::array4::Array4::serialize
+//@ functions: hll::array4::Array4::deserialize
+//@ functions: hll::aux_map::AuxMap::iter
+//@ unwind: 18
+//@ stubs: alloc::fmt::format -> empty string; AuxMap::grow -> must-not-reach cut
+//@ bounds: lg_k = 4: Hll4 state with all 8 nibble bytes symbolic, cur_min 0..=40, exception slots concrete per instance (none; 3; 3 and 12; 3 and 7 colliding) with symbolic values. *_image_layout_*: Array4::serialize against the spec image (unwinding bound 7: iterating the aux table with a larger bound does not finish); *_roundtrip_*: Array4::deserialize of the spec image (bound 18); *_any_layout_via_sketch: every valid aux layout with <= 2 exceptions through HllSketch::{serialize, deserialize}
+//@ assumes: Array4 representation invariant
+//@ desc: the Hll4 image is 40 + k/2 + 4*aux bytes: preInts 10, serVer 1, family 7, lgK, lgArr 0, COMPACT flag set (the aux map is written as a pair list), curMin @6, mode byte HLL|Hll4, estimator f64s @8, numAtCurMin @32, auxCount @36, nibbles @40, then (slot | value << 26) pairs in aux-table order - serialize() equals that spec image byte for byte; deserializing it restores every register, cur_min, num_at_cur_min and the exception count
+array4_image!(c11_hll_array4_image_layout_e0, array4_with_exceptions(&E0), 0, false, false, 7); //@ tier: quick
+array4_image!(c11_hll_array4_image_layout_e1, array4_with_exceptions(&E1), 1, false, false, 7);
+array4_image!(c11_hll_array4_image_layout_e2, array4_with_exceptions(&E2), 2, false, false, 7);
+array4_image!(c11_hll_array4_image_layout_e2_colliding, array4_with_exceptions(&E2C), 2, false, false, 7);
+array4_image!(c11_hll_array4_roundtrip_e0, array4_with_exceptions(&E0), 0, false, true, 18); //@ tier: quick
+array4_image!(c11_hll_array4_roundtrip_e1, array4_with_exceptions(&E1), 1, false, true, 18); //@ tier: quick
+array4_image!(c11_hll_array4_roundtrip_e2, array4_with_exceptions(&E2), 2, false, true, 18); //@ tier: quick
+array4_image!(c11_hll_array4_roundtrip_e2_colliding, array4_with_exceptions(&E2C), 2, false, true, 18);
+array4_image!(c11_hll_array4_roundtrip_any_layout_via_sketch, any_array4(), 9, true, true, 20);
+//@ endfamily: x
+
+/// the same state in the updatable form other implementations write: COMPACT flag clear, aux map as a hash
+/// table of 2^lgArr ints with empty slots, lgArr in byte 4
+fn array4_updatable_case(exc: &[u32]) {
+    let (a, model) = array4_with_exceptions(exc);
+    let n_aux = exc.len();
+    let mut upd = [0u8; 64];
+    upd[0] = 10;
+    upd[1] = 1;
+    upd[2] = 7;
+    upd[3] = 4;
+    upd[4] = 2; // lgAuxArrInts: a table of 4 ints
+    upd[5] = 0; // not compact
+    upd[6] = a.cur_min;
+    upd[7] = 2;
+    put_le(&mut upd, 8, a.estimator.hip_accum().to_bits(), 8);
+    put_le(&mut upd, 16, a.estimator.kxq0().to_bits(), 8);
+    put_le(&mut upd, 24, a.estimator.kxq1().to_bits(), 8);
+    put_le(&mut upd, 32, a.num_at_cur_min as u64, 4);
+    put_le(&mut upd, 36, n_aux as u64, 4);
+    let mut i = 0;
+    while i < 8 {
+        upd[40 + i] = a.bytes[i];
+        i += 1;
+    }
+    // the pairs at concrete, distinct positions of the 4-int table (the first at the position given by the
+    // instance's first exception slot, the second right after it, wrapping), the rest empty
+    let p0 = (exc[0] as usize) & 3;
+    let p1 = (p0 + 1) & 3;
+    put_le(&mut upd, 48 + 4 * p0, crate::hll::pack_coupon(exc[0], model[exc[0] as usize]) as u64, 4);
+    if n_aux == 2 {
+        put_le(&mut upd, 48 + 4 * p1, crate::hll::pack_coupon(exc[1], model[exc[1] as usize]) as u64, 4);
+    }
+    let cursor = crate::codec::SketchSlice::new(&upd[8..64]);
+    let b = crate::verif_kani_common::expect_ok(Array4::deserialize(cursor, upd[6], 4, 2, false, false), "valid updatable Hll4 image rejected");
+    same_registers(&b, &model);
+    assert!(b.cur_min == a.cur_min && b.num_at_cur_min == a.num_at_cur_min);
+    kani::cover!(true);
+    core::mem::forget((a, b));
+}
+
+macro_rules! array4_updatable {
+    ($name:ident, $exc:expr) => {
+        #[kani::proof]
+        #[kani::unwind(20)]
+        #[kani::stub(alloc::fmt::format, stub_format)]
+        #[kani::stub(crate::hll::aux_map::AuxMap::grow, cut_grow)]
+        fn $name() {
+            array4_updatable_case($exc);
+        }
+    };
+}
+
+//@ family: array4_updatable
+//@ props: C13
+//@ tier: thorough
+//@ timeout: 3600
+//@ functions: hll::array4::Array4::deserialize
+//@ functions: hll::aux_map::AuxMap::insert
+//@ unwind: 20
+//@ stubs: alloc::fmt::format -> empty string; AuxMap::grow -> must-not-reach cut
+//@ bounds: lg_k = 4 Hll4 state (symbolic nibbles, cur_min, exception values; exception slots concrete per instance) re-encoded in the updatable form: COMPACT flag clear, lgAuxArrInts = 2 in byte 4, the aux pairs at distinct positions of a 4-int table (concrete per instance), the rest empty
+//@ desc: an updatable Hll4 image as written by other implementations (aux map as an open-addressing table with empty slots) decodes to the same registers, cur_min and num_at_cur_min as the compact image of the same state
+array4_updatable!(c13_hll_array4_updatable_aux_e1, &E1); //@ tier: quick
+array4_updatable!(c13_hll_array4_updatable_aux_e2, &E2);
+//@ endfamily: x
